@@ -151,16 +151,25 @@ func (s *keysState) OnObjectStart(ctx gotype.UnfoldCtx, l int, bt structform.Bas
 	s.open = true
 	return nil
 }
+
+// scalar: member values are ignored; a scalar where the object is expected is refused (a state that neither
+// fails nor calls Done would leave the shared stack waiting for it)
+func (s *keysState) scalar() error {
+	if !s.open {
+		return errUser
+	}
+	return nil
+}
 func (s *keysState) OnKey(ctx gotype.UnfoldCtx, key string) error {
 	s.to.Keys = append(s.to.Keys, key)
 	return nil
 }
-func (s *keysState) OnNil(ctx gotype.UnfoldCtx) error              { return nil }
-func (s *keysState) OnBool(ctx gotype.UnfoldCtx, b bool) error     { return nil }
-func (s *keysState) OnString(ctx gotype.UnfoldCtx, v string) error { return nil }
-func (s *keysState) OnInt(ctx gotype.UnfoldCtx, i int64) error     { return nil }
-func (s *keysState) OnUint(ctx gotype.UnfoldCtx, u uint64) error   { return nil }
-func (s *keysState) OnFloat(ctx gotype.UnfoldCtx, f float64) error { return nil }
+func (s *keysState) OnNil(ctx gotype.UnfoldCtx) error              { return s.scalar() }
+func (s *keysState) OnBool(ctx gotype.UnfoldCtx, b bool) error     { return s.scalar() }
+func (s *keysState) OnString(ctx gotype.UnfoldCtx, v string) error { return s.scalar() }
+func (s *keysState) OnInt(ctx gotype.UnfoldCtx, i int64) error     { return s.scalar() }
+func (s *keysState) OnUint(ctx gotype.UnfoldCtx, u uint64) error   { return s.scalar() }
+func (s *keysState) OnFloat(ctx gotype.UnfoldCtx, f float64) error { return s.scalar() }
 func (s *keysState) OnObjectFinished(ctx gotype.UnfoldCtx) error   { ctx.Done(); return nil }
 func unfoldUKeys(to *UKeys) gotype.UnfoldState                     { return &keysState{to: to} }
 
